@@ -106,7 +106,7 @@ package origins
 //@   props C01 C13 C17 C18
 //@   pure
 //@   allocs <= 0
-//@   requires n != nil && NodeInv(n) && 0 <= port && port <= 65536
+//@   requires n != nil && NodeInv(n) && -65537 <= port && port <= 65536
 //@   ensures C01.node_membership: result == NodeHas(n, scheme, port, wildcardSubs)
 
 //@ func Parse
@@ -254,6 +254,11 @@ package origins
 //@   trusted recursive rendering with string concatenation (node.elems): outside the subset; bounded stand-in: the C01 harness runs Elems on every enumerated tree and re-parses its output
 //@   requires t != nil
 //@   allocs <= 1
+
+//@ func node.add
+//@   props C17
+//@   requires n != nil && NodeInv(n) && 0 <= port && port <= 65536
+//@   ensures len(n.schemes) == len(n.ports)
 
 //@ func deleteSameSign
 //@   props C01 C17
